@@ -232,6 +232,9 @@ type Settings struct {
 	MaxHops  int    // --max-hops
 	PageHops int    // hops of the page
 	Depth    int    // 0 = the page is the seed, 1 = HTML fetched as asset of the seed, 3 = three levels below the seed
+	// Via: "" = the page URL was requested directly; "redirect" = the seed was another URL (other
+	// scheme, host and directory) that redirected to the page: references still resolve against the page
+	Via string `json:",omitempty"`
 }
 
 type Case struct {
@@ -248,8 +251,8 @@ func (c Case) String() string {
 	for _, x := range c.Plants {
 		p = append(p, x.Carrier+":"+x.Form)
 	}
-	return fmt.Sprintf("#%d %s quote=%s nest=%s page=%s disable-html-tag=%q capture-alternate-pages=%v disable-assets-capture=%v max-hops=%d page-hops=%d depth=%d",
-		c.ID, strings.Join(p, "+"), c.Quote, c.Nest, c.Scheme, c.Set.Disable, c.Set.Alt, c.Set.DAC, c.Set.MaxHops, c.Set.PageHops, c.Set.Depth)
+	return fmt.Sprintf("#%d %s quote=%s nest=%s page=%s disable-html-tag=%q capture-alternate-pages=%v disable-assets-capture=%v max-hops=%d page-hops=%d depth=%d via=%q",
+		c.ID, strings.Join(p, "+"), c.Quote, c.Nest, c.Scheme, c.Set.Disable, c.Set.Alt, c.Set.DAC, c.Set.MaxHops, c.Set.PageHops, c.Set.Depth, c.Set.Via)
 }
 
 func (c Case) docKey() string {
@@ -261,7 +264,7 @@ func (c Case) docKey() string {
 }
 
 // dimensions used for signatures (alphabets identical in both tiers) and for the human text only.
-var sigDims = []string{"form", "page", "tag", "alt", "dac", "hops", "depth"}
+var sigDims = []string{"form", "page", "tag", "alt", "dac", "hops", "depth", "via"}
 var otherDims = []string{"quote", "nest", "partner"}
 
 func (c Case) dims(slotPlant int) map[string]string {
@@ -279,7 +282,7 @@ func (c Case) dims(slotPlant int) map[string]string {
 	}
 	return map[string]string{
 		"form": p.Form, "page": c.Scheme, "tag": tag, "alt": fmt.Sprint(c.Set.Alt), "dac": fmt.Sprint(c.Set.DAC),
-		"hops": fmt.Sprintf("page%d-max%d", c.Set.PageHops, c.Set.MaxHops), "depth": fmt.Sprint(c.Set.Depth),
+		"hops": fmt.Sprintf("page%d-max%d", c.Set.PageHops, c.Set.MaxHops), "depth": fmt.Sprint(c.Set.Depth), "via": map[bool]string{true: "direct", false: c.Set.Via}[c.Set.Via == ""],
 		"quote": c.Quote, "nest": c.Nest, "partner": partner,
 	}
 }
@@ -339,6 +342,7 @@ func alphabets(tier string) map[string]any {
 	}
 	return map[string]any{
 		"carriers": cs, "quoting": quotes, "reference_forms": formNames, "nesting": nests, "page_url": []string{"http://site.example/a/b/page.html", "https://site.example/a/b/page.html"},
+		"via_redirect":    "every carrier x reference form x page scheme once more with the page reached through a redirection from a URL of another scheme, host and directory (seed -> 302 -> page)",
 		"single_settings": "disable-html-tag {none, carrier's tag, another tag} x capture-alternate-pages {off,on} x disable-assets-capture {off,on} x depth {0, 1 (HTML as asset), 3} x (page hops, max-hops) {(0,0),(0,1)} (+(1,1),(1,2) for a href; a href only at depth 0)",
 		"pairs":           "all ordered pairs of carriers (incl. twice the same) in one document, quoting " + strings.Join(pq, ",") + ", nesting " + strings.Join(pn, ",") + ", forms " + strings.Join(pf, ",") + " for each, both page schemes, settings: disable-html-tag {none, first's tag, second's tag} x capture-alternate-pages {off,on if a link is involved} x (0,1) hops, plus disable-assets-capture on, plus max-hops 0 when an anchor is involved",
 	}
@@ -388,6 +392,17 @@ func enumerate(tier string, f func(Case)) {
 						}
 					}
 				}
+			}
+		}
+	}
+	// the page was reached through a redirection from elsewhere: every carrier x form x page scheme
+	for _, cd := range carriers {
+		for _, form := range formNames {
+			if !legal(Case{Plants: []Plant{{cd.Name, form}}, Quote: "dq", Nest: "body", Scheme: "http"}) {
+				continue
+			}
+			for _, scheme := range schemes {
+				emit(Case{Plants: []Plant{{cd.Name, form}}, Quote: "dq", Nest: "body", Scheme: scheme, Set: Settings{PageHops: 0, MaxHops: 1, Via: "redirect"}})
 			}
 		}
 	}
